@@ -21,7 +21,7 @@ RULE = (
     "targeted at local headers / member data / central directory; per member in turn (each .iwa, each plist, Index.zip of a "
     "package): empty, 1..3 bytes, truncated at/off a chunk boundary, marker byte != 0, length field +-1 / huge, snappy payload "
     "replaced by noise, varint header overlong/truncated, ArchiveInfo replaced by noise, message length beyond the segment; "
-    "encrypted marker member added; metadata plists missing/garbled. Oracle: Document(path) returns or raises FileError / "
+    "encrypted marker member added; metadata plists missing/garbled/well-formed with values of another type (real, int, data, bool, date, array, dict). Oracle: Document(path) returns or raises FileError / "
     "FileFormatError / UnsupportedError; any other exception is a violation iff the container loader (ObjectStore.__init__ / "
     "IWork.open and below) is on the traceback - later model-layer exceptions are counted as out_of_scope. cat-numbers main() "
     "in-process must exit 0/1 without a traceback for in-scope faults. Non-trivial: the fault changed bytes the loader reads and "
@@ -157,6 +157,21 @@ def member_fault(body, f):
         import snappy
 
         return iwa.build_file(S2, compressor=snappy.compress) if S2 else b""
+    if kind == "plist_retype":
+        # a well-formed property list whose values are of another type than the library expects
+        import datetime as _dt
+        import plistlib
+
+        try:
+            d = plistlib.loads(body)
+        except Exception:
+            return noise
+        val = {"real": 14.1, "int": 14, "data": b"14.1", "bool": True, "date": _dt.datetime(2020, 1, 2), "array": ["14", "1"], "dict": {"v": "14.1"}}[f.get("how", "real")]
+        if isinstance(d, dict):
+            d = {k_: (val if isinstance(v, str) else v) for k_, v in d.items()}
+        else:
+            d = val
+        return plistlib.dumps(d, fmt=plistlib.FMT_BINARY if f.get("salt", 0) % 2 else plistlib.FMT_XML)
     if kind == "garble":
         b = bytearray(body)
         for k in range(0, len(b), max(1, len(b) // 8)):
@@ -389,9 +404,9 @@ def fault_strategy(base_bytes):
                              st.integers(start_dir, n - 1))
     flips = st.lists(st.tuples(flip_offsets, st.integers(0, 7)), min_size=1, max_size=8).map(lambda l: [list(x) for x in l])
     mf = member_fault_strategy(iwas).map(lambda d: {"kind": "member", **d})
-    mf_plist = st.fixed_dictionaries({"kind": st.just("member"), "mkind": st.sampled_from(["empty", "garble", "short", "truncate"]),
+    mf_plist = st.fixed_dictionaries({"kind": st.just("member"), "mkind": st.sampled_from(["empty", "garble", "short", "truncate", "plist_retype"]),
                                       "member": st.sampled_from(plists), "n": st.integers(1, 3), "keep": st.booleans(), "at": st.integers(1, 4000),
-                                      "salt": st.integers(0, 255)})
+                                      "salt": st.integers(0, 255), "how": st.sampled_from(["real", "int", "data", "bool", "date", "array", "dict"])})
     sub = st.one_of(
         st.fixed_dictionaries({"kind": st.just("truncate"), "at": st.integers(0, 1 << 22)}),
         st.fixed_dictionaries({"kind": st.just("flips"), "flips": st.lists(st.tuples(st.integers(0, 1 << 22), st.integers(0, 7)), min_size=1, max_size=4).map(lambda l: [list(x) for x in l])}),
@@ -447,6 +462,11 @@ def run_task(ctx, lane, **kw):
                     continue
                 check_fault(ctx, {"lane": "fault", "base": kw["base"], "fault": f, "cli": mkind in ("empty", "short")}, base_bytes)
                 ctx.count("member_sweep")
+            if name.endswith(".plist") and kw.get("part", 0) == 0:
+                for how in ("real", "int", "data", "bool", "date", "array", "dict"):
+                    f = {"kind": "member", "mkind": "plist_retype", "member": name, "salt": len(how), "how": how}
+                    check_fault(ctx, {"lane": "fault", "base": kw["base"], "fault": f, "cli": how == "real"}, base_bytes)
+                    ctx.count("member_sweep")
     elif lane == "generated":
         from hypothesis import Phase
 
